@@ -738,10 +738,13 @@ func (e *Enc) execInvoke0(fr *Frame, c *ssa.CallCommon, recv Val, args []Val, re
 	iname := typeStr(it)
 	m := c.Method.Name()
 	full := iname + "." + m
+	if e.safeMode && full != "context.Context.Done" && full != "context.Context.Err" && full != "error.Error" {
+		e.safety(fr, cur, "nilrecv", pos, not(eq(recv.T, "nilI")), instr)
+	}
 	if v, ok := e.ifaceModel(fr, full, recv, args, resType, cur); ok {
 		return v
 	}
-	if e.safeMode {
+	if false {
 		e.safety(fr, cur, "nilrecv", pos, not(eq(recv.T, "nilI")), instr)
 	}
 	e.assumeIf(cur.reach, not(eq(recv.T, "nilI")))
